@@ -24,31 +24,21 @@ theorem render_names (t : PTable) : t.render.names = t.pats.map Pat.render := by
   | node p c d r _ ih => simp [PTable.render, Table.names, PTable.pats, ih]
 
 theorem nameWf_unpack {p : Pat} (h : nameWf p = true) :
-    p.WF0 ∧ p.segs ≠ [] ∧ noAlts p.segs = true ∧ p.render.all (· < 127) = true := by
+    p.WF0 ∧ p.segs ≠ [] ∧ noAlts p.segs = true ∧ True := by
   simp only [nameWf, Bool.and_eq_true, Bool.not_eq_eq_eq_not, Bool.not_true, List.isEmpty_eq_false_iff] at h
-  exact ⟨h.1.1.1, h.1.1.2, h.1.2, h.2⟩
+  exact ⟨h.1.1, h.1.2, h.2, trivial⟩
 
-/-- the hypotheses on a message: the remaining address, the type string, the size `n` of
-    the longest type alternative of the tree against the bytes behind the type string -/
+/-- the hypotheses on a message: the remaining address and the type string are C strings,
+    indices below 2^31.  (`n` is not used any more: it bounded the longest type alternative of
+    the tree by the bytes behind the type string, which the matcher compared them with before
+    fixes/C05-args-overread.) -/
 structure MsgOK (a tags rest : Bytes) (n : Nat) : Prop where
   a_nul : NulFree a
   a_idx : IdxBounded a
   t_nul : NulFree tags
-  fit : n ≤ tags.length + 1 + rest.length
 
 theorem MsgOK.next {a tags rest : Bytes} {n : Nat} (h : MsgOK a tags rest n) : MsgOK (levelTail a) tags rest n :=
-  ⟨NulFree.levelTail h.a_nul, IdxBounded.levelTail h.a_idx, h.t_nul, h.fit⟩
-
-def typesFit (n : Nat) (p : Pat) : Bool :=
-  match p.types with
-  | none => true
-  | some ts => ts.all (·.length ≤ n)
-
-theorem typesFit_bounds {n : Nat} {p : Pat} (h : typesFit n p = true) {m : Nat} (hm : n ≤ m) :
-    ArgsInBounds p m := by
-  intro ts hts a ha
-  simp only [typesFit, hts, List.all_eq_true, decide_eq_true_eq] at h
-  exact Nat.le_trans (h a ha) hm
+  ⟨NulFree.levelTail h.a_nul, IdxBounded.levelTail h.a_idx, h.t_nul⟩
 
 /-! ### pure versions of the small steps -/
 
@@ -108,44 +98,40 @@ def semNo : PTable → List Nat → Nat → List Nat → Bytes → Bytes → Byt
 
 /-- **the simple case of `dispatch` computes `semNo`** -/
 theorem scanNoLoc_sem (k : Nat) (tags rst : Bytes) (n : Nat) :
-    ∀ (t : PTable), t.WF → t.argsFit n = true →
+    ∀ (t : PTable), t.WF →
     ∀ (tp : List Nat) (i : Nat) (obj : List Nat) (a : Bytes) (d : RtData) (mt : Bool), MsgOK a tags rst n →
     scanNoLoc t.render tp i obj (a ++ 0 :: msgTail k tags rst) d mt =
       some (semNo t tp i obj a tags (msgTail k tags rst) d mt) := by
   intro t
   induction t with
-  | nil => intro _ _ tp i obj a d mt _; rfl
+  | nil => intro _ tp i obj a d mt _; rfl
   | leaf p rest ih =>
-    intro hwf hfit tp i obj a d mt hm
+    intro hwf tp i obj a d mt hm
     simp only [PTable.WF, PTable.wf, Bool.and_eq_true] at hwf
-    simp only [PTable.argsFit, Bool.and_eq_true] at hfit
     obtain ⟨hp0, hpne, hpna, _⟩ := nameWf_unpack hwf.1
     obtain ⟨e, hfull, _⟩ := full_render hp0 hpne hpna k rst hm.a_nul hm.a_idx hm.t_nul
-      (typesFit_bounds (p := p) hfit.1 hm.fit)
     simp only [PTable.render, scanNoLoc, hfull, semNo]
     cases hmb : matchB p a tags with
-    | none => simpa using ih hwf.2 hfit.2 tp (i + 1) obj a d mt hm
+    | none => simpa using ih hwf.2 tp (i + 1) obj a d mt hm
     | some t =>
       simp only [Option.isSome_some]
-      rw [ih hwf.2 hfit.2 tp (i + 1) obj a _ true hm, prepend_some]
+      rw [ih hwf.2 tp (i + 1) obj a _ true hm, prepend_some]
   | node p child cd rest ihc ihr =>
-    intro hwf hfit tp i obj a d mt hm
+    intro hwf tp i obj a d mt hm
     simp only [PTable.WF, PTable.wf, Bool.and_eq_true] at hwf
-    simp only [PTable.argsFit, Bool.and_eq_true] at hfit
     have hnw : nameWf p = true := by
       have := hwf.1.1
       simp only [nodeNameWf, Bool.and_eq_true] at this
       exact this.1.1
     obtain ⟨hp0, hpne, hpna, _⟩ := nameWf_unpack hnw
     obtain ⟨e, hfull, _⟩ := full_render hp0 hpne hpna k rst hm.a_nul hm.a_idx hm.t_nul
-      (typesFit_bounds (p := p) hfit.1.1 hm.fit)
     simp only [PTable.render, scanNoLoc, hfull, semNo]
     cases hmb : matchB p a tags with
-    | none => simpa using ihr hwf.2 hfit.2 tp (i + 1) obj a d mt hm
+    | none => simpa using ihr hwf.2 tp (i + 1) obj a d mt hm
     | some t =>
       simp only [Option.isSome_some, snip_addr a _ hm.a_nul]
-      rw [ihc hwf.1.2 hfit.1.2 (tp ++ [i]) 0 (tp ++ [i]) (levelTail a) _ false hm.next, finishNoLoc_some]
-      rw [andThen_some _ _ _ (ihr hwf.2 hfit.2 tp (i + 1) obj a _ true hm), prepend_some]
+      rw [ihc hwf.1.2 (tp ++ [i]) 0 (tp ++ [i]) (levelTail a) _ false hm.next, finishNoLoc_some]
+      rw [andThen_some _ _ _ (ihr hwf.2 tp (i + 1) obj a _ true hm), prepend_some]
 
 /-! ### with location buffer -/
 
